@@ -109,8 +109,9 @@ type runResult struct {
 	Delivered bool
 }
 
-// execCase runs one case under the watchdog. A timed-out goroutine cannot be killed; it is leaked
-// and the case is confirmed later in an expendable child process.
+// execCase runs one case under the watchdog (always inside a child process, see worker.go). A
+// timed-out goroutine cannot be killed: the child marks itself dirty and exits after the job; the
+// case is confirmed later, alone, in a fresh child.
 func execCase(c Case) (res runResult) {
 	done := make(chan runResult, 1)
 	go func() {
@@ -173,16 +174,24 @@ func globMatch(pat, s string) bool {
 type collector struct {
 	probeMu sync.Mutex
 	prober  *runner
-	mu      sync.Mutex
 	rep     *vh.Report
 	known   map[string]vh.Finding
 	seen    map[string]int // per class key: how many
 	viols   []violation
-	leaked  int
+}
+
+// propSelected: -prop may name several properties joined by '+' (sweeps: one pass, all oracles).
+func propSelected(p string) bool {
+	for _, x := range strings.Split(*prop, "+") {
+		if x == p {
+			return true
+		}
+	}
+	return false
 }
 
 func (k *collector) add(v violation) {
-	if v.Prop != *prop {
+	if !propSelected(v.Prop) {
 		repMu.Lock()
 		k.rep.Count("other-property:" + v.Prop + ":" + v.Kind)
 		repMu.Unlock()
@@ -262,7 +271,13 @@ func main() {
 		fmt.Fprintln(realStderr, "findings:", err)
 		os.Exit(2)
 	}
-	k := &collector{rep: rep, known: vh.KnownKeys(fs, *prop), seen: map[string]int{}}
+	known := map[string]vh.Finding{}
+	for _, p := range strings.Split(*prop, "+") {
+		for pred, f := range vh.KnownKeys(fs, p) {
+			known[pred] = f
+		}
+	}
+	k := &collector{rep: rep, known: known, seen: map[string]int{}}
 	corp, err := loadCorpus()
 	if err != nil {
 		fmt.Fprintln(realStderr, "corpus:", err)
@@ -287,16 +302,20 @@ func main() {
 	if *replay != "" {
 		e.replayFile(*replay)
 	} else {
-		switch *prop {
-		case "C05", "C06":
+		ran := false
+		if propSelected("C05") || propSelected("C06") {
 			e.runTotality()
-		case "C15":
+			ran = true
+		}
+		if propSelected("C15") {
 			e.runSchedules()
-		default:
+			ran = true
+		}
+		if !ran {
 			fmt.Fprintln(realStderr, "unknown -prop", *prop)
 			os.Exit(2)
 		}
-		if !*nomodel && *prop == "C05" {
+		if !*nomodel && propSelected("C05") {
 			e.latchCorrespondence(*driver)
 		}
 	}
@@ -344,7 +363,7 @@ func (e *engine) replayFile(path string) {
 			if !ok {
 				continue
 			}
-			if *prop == "C15" {
+			if propSelected("C15") {
 				emit(job{Kind: jobSchedule, C: c, Seed: e.rng.U64(), Thorough: e.thorough, Verbose: true})
 			} else {
 				emit(job{Kind: jobSingle, C: c, Verbose: true})
